@@ -79,6 +79,11 @@ def gen_task(g, prop, name, svc, allow_ramp, big=False):
         t["warmup-time-period"] = wt
         if g.coin(0.1):
             t["warmup-time-period"] = tp * 3  # warm-up longer than the measurement period
+        elif g.coin(0.12):
+            # a combination the track loader accepts (e.g. a parallel element's default time period on a sub-task with iterations):
+            # the time period decides, the iterations do not
+            t.pop("warmup-time-period")
+            t["iterations"] = g.pick([1, 3, 50])
     else:
         t["size"] = g.randint(1, 15)
         t["progress"] = g.coin(0.5)
@@ -223,7 +228,7 @@ def generate(prop, g, tier):
         # responses whose body is streamed: the last chunk arrives after the headers
         cfg["body_delay"] = g.pick([0.0005, 0.01, 0.15, 0.6])
     # ramp-up applies to the whole parallel element and needs warm-up time periods >= ramp-up on every task
-    if all("time-period" in t for t in tasks) and g.coin(0.4):
+    if all("time-period" in t and "warmup-time-period" in t for t in tasks) and g.coin(0.4):
         ramp = g.pick([0.5, 1.0, 2.0])
         for t in tasks:
             t["warmup-time-period"] = max(t["warmup-time-period"], ramp)
